@@ -316,6 +316,44 @@ pub fn run(tier: Tier) -> i32 {
     for v in fr.coll.violations.lock().unwrap().iter() {
         coll.push(v.clone());
     }
+    // ... including programs with zero-width parameters, whole or per party, in both circuit forms:
+    // whatever the compiler returns must validate and evaluate on inputs of the declared shape
+    let mut zero_sized_compiled = 0u64;
+    {
+        let mut srcs: Vec<(String, String, Vec<(&str, &str, u64)>)> = crate::props::c05::ZERO_SIZED.iter().map(|(n, s, _, _)| (n.to_string(), s.to_string(), vec![])).collect();
+        for n in [0u64, 1, 2] {
+            srcs.push((format!("single const-sized array param N={n}"), "const N: usize = P::N;\npub fn main(rows: [u16; N]) -> u16 {\n  let mut s = 7u16;\n  for r in rows {\n    s = s ^ r;\n  }\n  s\n}\n".into(), vec![("P", "N", n)]));
+            srcs.push((format!("const-sized array param next to another N={n}"), "const N: usize = P::N;\npub fn main(rows: [u16; N], y: u16) -> u16 {\n  let mut s = y;\n  for r in rows {\n    s = s ^ r;\n  }\n  s\n}\n".into(), vec![("P", "N", n)]));
+        }
+        for (name, src, consts) in &srcs {
+            for cfg in crate::subject::CONFIGS {
+                let mut m: std::collections::HashMap<String, std::collections::HashMap<String, garble_lang::literal::Literal>> = Default::default();
+                for (p, c, v) in consts {
+                    m.entry(p.to_string()).or_default().insert(c.to_string(), garble_lang::literal::Literal::NumUnsigned(*v, garble_lang::token::UnsignedNumType::Usize));
+                }
+                let case = json!({"kind": "program", "source": src, "consts": format!("{consts:?}"), "config": cfg.name()});
+                match crate::subject::compile(src, cfg, m) {
+                    crate::subject::CompileOutcome::Ok(p) => {
+                        zero_sized_compiled += 1;
+                        let (valid, shape): (Result<(), String>, Vec<usize>) = match &p.circuit {
+                            garble_lang::circuit_type::CircuitType::Ssa(c) => (c.validate().map_err(|e| format!("{e:?}")), c.input_gates.clone()),
+                            garble_lang::circuit_type::CircuitType::Register(c) => (c.validate().map_err(|e| format!("{e:?}")), c.input_regs.clone()),
+                        };
+                        if let Err(e) = valid {
+                            coll.push(Violation::new("C16", format!("compiled/zero-sized/{name}"), "compiler-output-fails-validation", cfg.name(), case, e));
+                            continue;
+                        }
+                        let inputs: Vec<Vec<bool>> = shape.iter().map(|n| vec![true; *n]).collect();
+                        if let Err(pn) = crate::subject::eval_raw(&p.circuit, &inputs) {
+                            coll.push(Violation::new("C16", format!("compiled/zero-sized/{name}"), "eval-rust-panic-after-validate-ok", cfg.name(), case, pn));
+                        }
+                    }
+                    crate::subject::CompileOutcome::Rejected(_) => {}
+                    crate::subject::CompileOutcome::RustPanic(pn) => coll.push(Violation::new("C16", format!("compiled/zero-sized/{name}"), "compile-rust-panic", cfg.name(), case, pn)),
+                }
+            }
+        }
+    }
     let states = cnt_ssa.values.load(Ordering::Relaxed) + cnt_reg.values.load(Ordering::Relaxed);
     let report = Report {
         property: "C16".into(),
@@ -340,6 +378,7 @@ pub fn run(tier: Tier) -> i32 {
             "register_bound": format!("<= {n_insts} instructions over Input{{party<{parties},input<{inputs}}}/Xor/And/Not on registers <{regs}, out <{regs}, max_reg_count 0..={regs}, 8 party shapes, output lists of length 0-2{}", if tier == Tier::Thorough { "; plus 2 instructions over the wide alphabet (party<3,input<3,regs<4)" } else { "" }),
             "exhaustive": complete_ssa && complete_reg && complete_wide && fr.complete,
             "compiled_programs_validated": fr.counters.get("programs"),
+            "zero_sized_parameter_programs_compiled_and_validated": zero_sized_compiled,
             "wall_cap_hit": budget.hit(),
         }),
         assumptions: vec!["validation rejecting a harmless circuit is not a violation".into()],
